@@ -21,8 +21,10 @@ type Solver struct {
 	timeout time.Duration
 	log     io.Writer
 	dead    bool
-	alt     *Solver // portfolio partner: receives every command, answers when this one says unknown
+	alt     *Solver // portfolio partner: receives every command, raced on every check-sat
 	answer  *Solver // which process produced the last sat answer (for get-value)
+	script  strings.Builder // commands since the last reset (replayed into a fresh process after a kill)
+	restart bool
 }
 
 type SolverStats struct {
@@ -55,11 +57,7 @@ func solverArgv(kind string, timeoutMs int) []string {
 // int-blasting (full limit) for the arithmetic kernels where one of the two stalls.
 func NewSolver(kind string, timeout time.Duration) (*Solver, error) {
 	if kind == "portfolio" {
-		short := timeout / 6
-		if short < 5*time.Second {
-			short = 5 * time.Second
-		}
-		p, err := NewSolver("z3-new", short)
+		p, err := NewSolver("z3-new", timeout)
 		if err != nil {
 			return nil, err
 		}
@@ -105,6 +103,18 @@ func (s *Solver) Send(text string) {
 	if s.alt != nil {
 		s.alt.Send(text)
 	}
+	if !strings.HasPrefix(text, "(check-sat)") && !strings.HasPrefix(text, "(get-value") {
+		if strings.HasPrefix(text, "(reset)") {
+			s.script.Reset()
+		}
+		s.script.WriteString(text)
+	}
+	if s.restart {
+		s.respawn()
+		if !strings.HasPrefix(text, "(check-sat)") && !strings.HasPrefix(text, "(get-value") {
+			return // the replayed transcript already contains this command
+		}
+	}
 	if s.dead {
 		return
 	}
@@ -118,6 +128,10 @@ func (s *Solver) Send(text string) {
 
 // Reset clears all assertions and declarations.
 func (s *Solver) Reset() {
+	if s.restart {
+		s.script.Reset()
+		s.respawn()
+	}
 	if s.alt != nil {
 		s.alt.Reset()
 		alt := s.alt
@@ -148,31 +162,87 @@ func (s *Solver) readLine() (string, error) {
 	return strings.TrimSpace(line), err
 }
 
-// Check runs (check-sat) and returns "sat", "unsat" or "unknown" (also for errors/timeouts).
+// respawn replaces a killed process by a fresh one and replays the commands since the last reset.
+func (s *Solver) respawn() {
+	s.restart = false
+	argv := solverArgv(s.kind, int(s.timeout/time.Millisecond))
+	cmd := exec.Command(argv[0], argv[1:]...)
+	in, err1 := cmd.StdinPipe()
+	outp, err2 := cmd.StdoutPipe()
+	cmd.Stderr = cmd.Stdout
+	if err1 != nil || err2 != nil || cmd.Start() != nil {
+		s.dead = true
+		return
+	}
+	s.cmd, s.in, s.out, s.dead = cmd, in, bufio.NewReaderSize(outp, 1<<16), false
+	io.WriteString(s.in, "(set-option :produce-models true)\n")
+	io.WriteString(s.in, s.script.String())
+}
+
+func (s *Solver) kill() {
+	if s.cmd != nil && s.cmd.Process != nil {
+		s.cmd.Process.Kill()
+		s.cmd.Wait()
+	}
+	s.dead = true
+	s.restart = true
+}
+
+// Check runs (check-sat) and returns "sat", "unsat" or "unknown" (also for errors/timeouts). With a
+// portfolio partner both processes are raced; the loser is killed and respawned lazily.
 func (s *Solver) Check() string {
 	if s.alt == nil {
 		s.answer = s
 		return s.check1()
 	}
 	alt := s.alt
-	s.alt = nil // do not mirror the check-sat itself
-	r := s.check1()
-	s.alt = alt
-	s.answer = s
-	if r == "unknown" {
-		r = alt.check1()
-		s.answer = alt
-		atomic.AddInt64(&gStats.Fallbacks, 1)
+	if s.restart {
+		s.respawn()
 	}
-	return r
+	if alt.restart {
+		alt.respawn()
+	}
+	type ans struct {
+		who *Solver
+		r   string
+	}
+	ch := make(chan ans, 2)
+	s.alt = nil
+	go func() { ch <- ans{s, s.check1()} }()
+	go func() { ch <- ans{alt, alt.check1()} }()
+	first := <-ch
+	res := first
+	if first.r == "unknown" {
+		second := <-ch
+		res = second
+		if second.r == "unknown" {
+			res = first
+		}
+	} else {
+		// kill the slower process unless it answers right away
+		select {
+		case <-ch:
+		case <-time.After(20 * time.Millisecond):
+			other := alt
+			if first.who == alt {
+				other = s
+			}
+			other.kill()
+			<-ch
+			atomic.AddInt64(&gStats.Fallbacks, 1)
+		}
+	}
+	s.alt = alt
+	s.answer = res.who
+	return res.r
 }
 
 // Dead reports whether no process of the portfolio can answer any more.
 func (s *Solver) Dead() bool {
 	if s.alt != nil {
-		return s.dead && s.alt.dead
+		return (s.dead && !s.restart) && (s.alt.dead && !s.alt.restart)
 	}
-	return s.dead
+	return s.dead && !s.restart
 }
 
 func (s *Solver) check1() string {
